@@ -152,6 +152,24 @@ class ExactFamily(Family):
         return u
 
 
+def _mux_post(res):
+    if res.error:
+        return
+    oracles.token_oracle(res, "C02")
+
+
+def _multiplexed():
+    from .common import PoolMixFamily
+
+    return PoolMixFamily("C02", "multiplexed-async", 1200, 24000,
+                         {"exec": "asyncio", "protos": ["h2", "h2", "h2", "mix", "h1"],
+                          "proxies": ["none"] * 5 + ["http"], "single_origin": True,
+                          "max_connections": [1, 2, None], "max_keepalive": [None],
+                          "expiries": [None], "consume_opts": {"p_all": 1.0},
+                          "h2_mcs": [2, 3, 10, 100], "max_callers": 5, "min_callers": 2},
+                         [], [_mux_post])
+
+
 register("C02", {
     "level": "exploration",
     "rule": "one generated well-formed response per unit (any status, header list with mixed "
@@ -161,6 +179,11 @@ register("C02", {
             "and frame headers, one byte per read); plus a truncation sweep (every byte offset "
             "for small responses, sampled offsets otherwise; EOF / RST / GOAWAY / reset); all runs "
             "count as non-trivial; distinct = distinct event-log digest",
-    "assumptions": ["single caller on purpose (concurrency is C01's)",
+    "assumptions": ["the segmentation and truncation sweeps are single-caller; the "
+                    "multiplexed family judges equality of status, headers and body only",
                     "close-delimited bodies are excluded from the truncation oracle"],
-}, [ExactFamily(600, 12000)])
+}, [ExactFamily(600, 12000),
+    # the same exactness for responses that share a connection: 2-5 callers on multiplexed
+    # HTTP/2 connections (frames of several streams in one read, every segmentation mode)
+    # and on pooled HTTP/1.1 connections, all bodies read to the end, no faults
+    _multiplexed()])
